@@ -31,9 +31,10 @@ type c09Case struct {
 
 // fixed bindings and items for raw / fuzzed strings
 var (
-	c09Names  = map[string]string{"#n0": "s", "#n1": "n", "#n2": "m", "#n3": "l", "#a": "a"}
+	c09Names  = map[string]string{"#n0": "s", "#n1": "n", "#n2": "m", "#n3": "l", "#a": "a", "#cyc": "#cyc", "#ch1": "#ch2", "#ch2": "#ch1"}
 	c09Values = map[string]model.AV{":v0": model.Str("a"), ":v1": model.Num("1"), ":v2": model.Str("ab"), ":v3": model.Num("2"),
-		":v4": model.StrSet("x", "y"), ":v5": model.List(model.Num("1")), ":x": model.Str("a"), ":y": model.Str("b"), ":s": model.Str("S")}
+		":v4": model.StrSet("x", "y"), ":v5": model.List(model.Num("1")), ":x": model.Str("a"), ":y": model.Str("b"), ":s": model.Str("S"),
+		":big": model.Num("9223372036854775807"), ":neg1": model.Num("-1"), ":frac": model.Num("1.5"), ":huge": model.Num("1e30")}
 	c09Items = []model.Item{
 		{},
 		{"a": model.Str("a"), "b": model.Str("b"), "s": model.Str("ab"), "n": model.Num("1"), "flag": model.Bool(true)},
@@ -150,7 +151,7 @@ func runC09(c c09Case, info *c09Info) *failure {
 			continue
 		}
 		if c.Kind == "cond" {
-			if ids := exprGuards(c.Names, pathsOf(condAST), item, c.Values); len(ids) > 0 {
+			if ids := exprGuards(c.Names, pathsOf(condAST), item, c.Values, true); len(ids) > 0 {
 				info.guarded = append(info.guarded, ids...)
 				continue
 			}
@@ -262,15 +263,19 @@ var hostileConstants = []string{
 	"SET a = foo(:x)", "SET a = size(a)", "SET (a) = :x", "SET a = (:x)", "REMOVE a b", "ADD a :x :y", "SET a = :x junk", "SET a = :x )", "SET a[ = :x",
 	strings.Repeat("(", 2000), strings.Repeat("(", 1000) + "a = :x" + strings.Repeat(")", 1000), strings.Repeat("NOT ", 1000) + "a = :x",
 	strings.Repeat("a = :x AND ", 300) + "a = :x", strings.Repeat("a.", 2000), "a = :x" + strings.Repeat(" ", 4000), strings.Repeat("a", 4096),
+	"#cyc = :x", "attribute_exists(#cyc)", "SET #cyc = :x", "REMOVE #cyc", "#ch1 = :x", "SET a = #ch2", "#cyc.k = :x", "a.#ch1 = :x",
+	"SET l[:big] = :x", "REMOVE l[:big]", "l[:big] = :x", "SET l[:neg1] = :x", "REMOVE l[:frac]", "SET l[:huge] = :x", "l[:v1] = :x", "SET l[:v1] = :x", "REMOVE m.k[:big]",
+	"contains(l, nosuchfn(a))", "contains(l, NOT a)", "contains(ss, size())", "begins_with(s, nosuchfn(a))", "SET a = if_not_exists(a, nosuchfn(:x))", "SET a = if_not_exists(a, size())",
+	"SET a = list_append(l, nosuchfn(:v5))", "a BETWEEN :x AND nosuchfn(b)", "a IN (:x, nosuchfn(b))",
 	"a = :x\x00", "\xff\xfe", "a = :x \x80", "é = :x", "a = :x -- comment", "a = 'lit'", "a = \"lit\"",
 }
 
 func drawC09(rt *rapid.T) (c09Case, string) {
 	kind := rapid.SampledFrom([]string{"cond", "cond", "update"}).Draw(rt, "kind")
 	c := c09Case{Kind: kind, Items: c09Items, Names: c09Names, Values: c09Values}
-	mode := rapid.SampledFrom([]string{"mutation", "mutation", "mutation", "valid", "fragments", "constant", "bytes", "dirty-twin", "repeat", "case-twin"}).Draw(rt, "mode")
+	mode := rapid.SampledFrom([]string{"mutation", "mutation", "mutation", "valid", "fragments", "constant", "bytes", "dirty-twin", "repeat", "case-twin", "bad-operand"}).Draw(rt, "mode")
 	switch mode {
-	case "mutation", "valid", "dirty-twin", "repeat", "case-twin":
+	case "mutation", "valid", "dirty-twin", "repeat", "case-twin", "bad-operand":
 		o := avOpts(2, false)
 		it := richItem(rt, o)
 		ctx := gen.NewExprCtx(it, o)
@@ -283,6 +288,59 @@ func drawC09(rt *rapid.T) (c09Case, string) {
 		} else {
 			updAST = ctx.Update(rt, gen.UpdateCfg{MaxActions: 3})
 			text = model.RenderUpdate(updAST)
+		}
+		if mode == "bad-operand" {
+			// one operand (any leaf: comparison side, BETWEEN bound, IN member,
+			// function argument, SET value, arithmetic term, ADD / DELETE operand)
+			// replaced by a call that cannot be evaluated
+			bad := rapid.SampledFrom([]model.Expr{
+				model.Func{Name: "nosuchfn", Args: []model.Expr{model.P("a")}},
+				model.Func{Name: "size"},
+				model.Func{Name: "begins_with", Args: []model.Expr{model.P("a")}},
+				model.Func{Name: "attribute_exists", Args: []model.Expr{model.P("a"), model.P("b")}},
+			}).Draw(rt, "badOperand")
+			leaves := 0
+			count := func(x model.Expr) {
+				switch x.(type) {
+				case model.Path, model.ValueRef:
+					leaves++
+				}
+			}
+			if kind == "cond" {
+				model.WalkExpr(condAST, count)
+			} else {
+				for _, cl := range updAST.Clauses {
+					for _, a := range cl.Actions {
+						model.WalkExpr(a.Value, count)
+					}
+				}
+			}
+			if leaves > 0 {
+				target, seen := rapid.IntRange(0, leaves-1).Draw(rt, "badOperandAt"), 0
+				sub := func(x model.Expr) model.Expr {
+					switch x.(type) {
+					case model.Path, model.ValueRef:
+						seen++
+						if seen-1 == target {
+							return bad
+						}
+					}
+					return x
+				}
+				if kind == "cond" {
+					text = model.Render(model.MapExpr(condAST, sub))
+				} else {
+					out := model.Update{}
+					for _, cl := range updAST.Clauses {
+						nc := model.Clause{Kind: cl.Kind}
+						for _, a := range cl.Actions {
+							nc.Actions = append(nc.Actions, model.Action{Path: a.Path, Value: model.MapExpr(a.Value, sub)})
+						}
+						out.Clauses = append(out.Clauses, nc)
+					}
+					text = model.RenderUpdate(out)
+				}
+			}
 		}
 		if mode == "mutation" {
 			n := rapid.IntRange(1, 2).Draw(rt, "nMut")
@@ -349,7 +407,7 @@ func drawC09(rt *rapid.T) (c09Case, string) {
 	return c, mode
 }
 
-const ruleC09 = "rapid: expression strings for the condition and the update grammar - (a) one or two token-level mutations (drop, duplicate, replace, swap a token, append/prepend an operator, lower-case the keywords) of valid generated expressions, (b) random sequences of grammar fragments, (c) hostile constants (juxtaposed clauses, unbalanced and 2000-deep parentheses, 4096-byte inputs, wrong arities, bare literals, illegal bytes), (d) raw bytes, (e) a valid expression followed by a twin whose separator is an exotic white-space byte sequence, a valid expression preceded by a twin that differs in the letter case of one identifier, and malformed expressions evaluated repeatedly, always on one interpreter instance per case; each evaluated with interpreter.Language.Match / Update against 3-4 items under a watchdog. Oracle: totality (no runtime panic, returns within the watchdog), strictness (a string rejected by the liberal reference recogniser must be rejected; a string it accepts is either rejected or evaluates to exactly the reference value / item on every item; a rejected update leaves the item unchanged), and for a sample the client API on both SDK clients (error or documented panic, never success, state unchanged). Non-trivial = string of >= 3 tokens that the reference recogniser rejects, or accepts while the implementation evaluates it; distinct = hash of (kind, string)."
+const ruleC09 = "rapid: expression strings for the condition and the update grammar - (a) one or two token-level mutations (drop, duplicate, replace, swap a token, append/prepend an operator, lower-case the keywords) of valid generated expressions, (b) random sequences of grammar fragments, (c) valid expressions in which one operand - any leaf - is replaced by a call that cannot be evaluated (unknown function, wrong arity), (c') hostile constants (list positions given by number placeholders up to 2^63, juxtaposed clauses, unbalanced and 2000-deep parentheses, 4096-byte inputs, wrong arities, bare literals, illegal bytes), (d) raw bytes, (e) a valid expression followed by a twin whose separator is an exotic white-space byte sequence, a valid expression preceded by a twin that differs in the letter case of one identifier, and malformed expressions evaluated repeatedly, always on one interpreter instance per case; each evaluated with interpreter.Language.Match / Update against 3-4 items under a watchdog. Oracle: totality (no runtime panic, returns within the watchdog), strictness (a string rejected by the liberal reference recogniser must be rejected; a string it accepts is either rejected or evaluates to exactly the reference value / item on every item; a rejected update leaves the item unchanged), and for a sample the client API on both SDK clients (error or documented panic, never success, state unchanged). Non-trivial = string of >= 3 tokens that the reference recogniser rejects, or accepts while the implementation evaluates it; distinct = hash of (kind, string)."
 
 // TestC09 decides property C09.
 func TestC09(t *testing.T) {
